@@ -1,5 +1,5 @@
 """Registry: which parts make up each property's check (see DESIGN.md section 4)."""
-from vlib import GoBin, GoTest, McPart, RwTest, TracePart, PamxPart
+from vlib import GoBin, GoTest, McPart, RwTest, TracePart, PamxPart, BindPart
 
 MC = 'github.com/whawty/auth/internal/verifmc'
 AGENT_RW = {'imports': {
@@ -103,7 +103,8 @@ CHECKS = {
         'technique': 'exhaustive schedule exploration of the rewritten agent (state-pruned full reachability + deviation-bounded DFS); per-execution exhaustive linearizability search against a sequential store model incl. final-store read-out',
         'text': 'Every interleaving of 2-4 clients x 1-2 operations on overlapping users (Store interface, SASL callback, LDAP bind; upgrades off and local) is executed on the real dispatcher; each complete history must have a sequential order consistent with real time that explains every response and the final store directory.',
         'note': 'Histories of at most 8 operations; channel-level scheduling points; sequential reference model = property statement; data races left to the -race twin.',
-        'parts': [McPart('mc', 'C11', 'cmd/whawty-auth', ['harness/agentmc'], AGENT_RW)],
+        'parts': [McPart('mc', 'C11', 'cmd/whawty-auth', ['harness/agentmc'], AGENT_RW),
+                  RwTest('race', 'cmd/whawty-auth', ['harness/agentseq'], AGENT_SEQ, '^TestRace$', race=True, env={'VERIF_RACE_PROP': 'C11'})],
     },
     'C03': {
         'level': 'exploration',
@@ -160,7 +161,8 @@ CHECKS = {
         'text': 'Every stream/delivery/callback cell is handled by the real handler over a scripted connection: at most one callback call with exactly the decoded fields, exactly one well-formed length-prefixed reply, then close; positive only if decoded completely and approved without error; every reply decodes with the Go client and the PAM module to the verdict. Concurrent connections are explored under the controlled scheduler: no connection ever sees another one\'s reply.',
         'note': 'Connections are in-memory objects (kernel socket buffering is exercised by C04 over a real unix socket).',
         'parts': [GoTest('streams', 'sasl', ['harness/saslseq'], '^TestC05$'), PamxPart('pam-replies', mode='replies', producer='goreplies.bin'),
-                  McPart('mc', 'C05', 'sasl', ['harness/saslmc'], {'imports': {}})],
+                  McPart('mc', 'C05', 'sasl', ['harness/saslmc'], {'imports': {}}),
+                  GoTest('race', 'sasl', ['harness/saslseq'], '^TestRace$', race=True)],
     },
     'C13': {
         'level': 'exploration',
@@ -184,6 +186,6 @@ CHECKS = {
         'technique': 'stateless + state-pruned exhaustive schedule exploration of the real (mechanically rewritten) agent under a controlled scheduler; deadlock oracle',
         'text': 'All interleavings (full reachability with state-key pruning for capacity-scaled systems, deviation-bounded under four canonical orders for the true queue capacities) of client requests against the real dispatcher/hooks/upgrader code; oracle: no reachable state without an enabled thread while a request is unanswered, daemons back at their loop heads at quiescence.',
         'note': 'Channel-level scheduling points; modelled timers/exec/http; capacity scaling is an abstraction backed by the true-capacity runs; client mixes are the stated scenarios.',
-        'parts': [McPart('mc', 'C10', 'cmd/whawty-auth', ['harness/agentmc'], AGENT_RW)],
+        'parts': [McPart('mc', 'C10', 'cmd/whawty-auth', ['harness/agentmc'], AGENT_RW), BindPart('binding', 'C10', AGENT_RW, AGENT_SEQ)],
     },
 }
